@@ -55,6 +55,19 @@ func (a latAtom) CUE() string {
 		}
 		return strconv.Itoa(a.N / 4)
 	case "float":
+		// large floats are spelled with an exponent (few coefficient digits, large magnitude)
+		if abs := a.N / 4; a.N%4 == 0 && (abs >= 500 || abs <= -500) {
+			neg := ""
+			if abs < 0 {
+				neg, abs = "-", -abs
+			}
+			e := 0
+			for abs%10 == 0 {
+				abs /= 10
+				e++
+			}
+			return fmt.Sprintf("%s%de%d", neg, abs, e)
+		}
 		return quarter(a.N)
 	case "string":
 		return strconv.Quote(a.S)
